@@ -97,6 +97,13 @@ def observe_params(text, head=None):
                 num, den = as_fraction(value)
                 event["items"].append({"l": name, "has": True, "num": num, "den": den})
         rig = FilterRig({})
+        if len(text) % 5 == 2:
+            # the usual start-of-file lift, relative and before homing: the position is unknown,
+            # the handler gives up on it (an exception OctoPrint logs); nothing of that command
+            # may stick to the next one
+            rig.gcode("G91")
+            rig.gcode(["G1 Z5 F3000", "G0 X3 Y-2 Z5 F3000"][len(text) % 2])
+            rig.gcode("G90")
         rig.gcode("G28")
         result = rig.gcode(head + text)
         if result["res"] == "exc":
